@@ -573,4 +573,18 @@ static std::string dispatch(const std::string &op, const Args &a)
     return conv(op, a);
 }
 
-int main(int argc, char **argv) { return run_main(argc, argv, dispatch); }
+// what the shutdown probe does with the library: every kind of conversion once, digest of the results
+static std::string utf_probe()
+{
+    static const char t8[] = "h\xc3\xa9llo \xe2\x82\xac \xf0\x9f\x98\x80 end";
+    std::ostringstream o;
+    ST::utf16_buffer u16 = ST::utf8_to_utf16(t8, sizeof t8 - 1);
+    ST::utf32_buffer u32 = ST::utf8_to_utf32(t8, sizeof t8 - 1);
+    o << hex(u16) << "|" << hex(u32) << "|" << hex(ST::utf16_to_utf8(u16)) << "|" << hex(ST::utf32_to_utf8(u32))
+      << "|" << hex(ST::utf16_to_utf32(u16)) << "|" << hex(ST::utf32_to_utf16(u32)) << "|" << hex(ST::utf8_to_wchar(t8, sizeof t8 - 1))
+      << "|" << hex(ST::latin_1_to_utf8("caf\xe9", 4)) << "|" << hex(ST::utf8_to_latin_1(t8, 6)) << "|" << hex(ST::string::from_utf16(u16))
+      << "|" << hex(ST::string::from_utf32(u32).to_utf16()) << "|" << hex(ST::string(t8).to_wchar());
+    return o.str();
+}
+
+int main(int argc, char **argv) { vh::g_probe = utf_probe; return run_main(argc, argv, dispatch); }
